@@ -660,6 +660,10 @@ type c04oBackend struct {
 	completed []int
 	maxDone   int
 	last      []byte
+	failed    []int    // markers of the payloads whose write the Backend made fail, in order
+	retries   [][2]int // (failed marker, marker of the next completed write)
+	pendingFail bool
+	failMarker  int
 }
 
 func (b *c04oBackend) maxCompleted() int {
@@ -711,7 +715,21 @@ func (b *c04oBackend) Checkpoint(d []byte) error {
 	if ms := vh.NewRand(b.seed + uint64(k)).Intn(5); ms > 1 {
 		time.Sleep(time.Duration(ms-1) * time.Millisecond)
 	}
+	// now and then the write fails: State.Unlock must retry the same payload with the lock still held
+	if vh.NewRand(b.seed*31+uint64(k)).Intn(9) == 0 {
+		b.mu.Lock()
+		b.locked = append(b.locked, held)
+		if !b.pendingFail {
+			b.pendingFail, b.failMarker = true, seq
+		}
+		b.mu.Unlock()
+		return errors.New("checkpoint failed (injected)")
+	}
 	b.mu.Lock()
+	if b.pendingFail {
+		b.retries = append(b.retries, [2]int{b.failMarker, seq})
+		b.pendingFail = false
+	}
 	b.locked = append(b.locked, held)
 	b.completed = append(b.completed, seq)
 	if seq > b.maxDone {
@@ -724,6 +742,10 @@ func (b *c04oBackend) Checkpoint(d []byte) error {
 func (b *c04oBackend) EnsureBefore(time.Duration) {}
 
 func c04oExec(in c04oIn) vh.Out {
+	// retry a failed checkpoint after 1 ms instead of 3 s
+	oldInterval := unlockCheckpointRetryInterval
+	unlockCheckpointRetryInterval = time.Millisecond
+	defer func() { unlockCheckpointRetryInterval = oldInterval }()
 	be := &c04oBackend{seed: in.Sleep}
 	st := New(be)
 	be.st = st
@@ -793,8 +815,16 @@ func c04oExec(in c04oIn) vh.Out {
 	st.unlock()
 	mem := c04Statuses(st)
 	be.mu.Lock()
-	locked, completed, last := be.locked, be.completed, be.last
+	locked, completed, last, retries := be.locked, be.completed, be.last, be.retries
 	be.mu.Unlock()
+	rt := make([]string, len(retries))
+	badRetries := 0
+	for i, p := range retries {
+		rt[i] = "(" + vh.CoqN(uint64(p[0])) + ", " + vh.CoqN(uint64(p[1])) + ")"
+		if p[0] != p[1] {
+			badRetries++
+		}
+	}
 	_, lastSts := c04oParse(last)
 	lb := make([]string, len(locked))
 	outOfLock := 0
@@ -810,7 +840,7 @@ func c04oExec(in c04oIn) vh.Out {
 			outOfOrder++
 		}
 	}
-	coq := "(OCase " + vh.CoqList(lb) + " " + c04NL(completed) + " " + vh.CoqN(uint64(newest)) + " " + c04Pairs(mem) + " " + c04Pairs(lastSts) + " " + vh.CoqN(uint64(unpersisted)) + ")"
+	coq := "(OCase " + vh.CoqList(lb) + " " + c04NL(completed) + " " + vh.CoqN(uint64(newest)) + " " + c04Pairs(mem) + " " + c04Pairs(lastSts) + " " + vh.CoqN(uint64(unpersisted)) + " " + vh.CoqList(rt) + ")"
 	var tags []string
 	if outOfLock > 0 {
 		tags = append(tags, "checkpoint-written-outside-the-state-lock")
@@ -824,8 +854,14 @@ func c04oExec(in c04oIn) vh.Out {
 	if in.Unlockers > 0 {
 		tags = append(tags, "releases-through-Unlocker")
 	}
+	if len(retries) > 0 {
+		tags = append(tags, "checkpoint-failed-and-retried")
+	}
+	if badRetries > 0 {
+		tags = append(tags, "something-written-between-failure-and-retry")
+	}
 	tags = append(tags, "mutators="+strconv.Itoa(in.Mutators))
-	obs := map[string]interface{}{"checkpoints": len(completed), "outside_lock": outOfLock, "out_of_order": outOfOrder, "unpersisted": unpersisted,
+	obs := map[string]interface{}{"checkpoints": len(completed), "outside_lock": outOfLock, "out_of_order": outOfOrder, "unpersisted": unpersisted, "retries": retries,
 		"completed": completed, "newest": newest, "memory": mem, "last_written": lastSts}
 	return vh.Out{Observed: obs, Coq: coq, NonTrivial: len(completed) > 5, Tags: tags}
 }
